@@ -18,7 +18,7 @@ ASSUMPTIONS = [
     'payload bytes are fully symbolic except that the first byte is >= 0x80 (a payload made only of ASCII hex digits would be hex-decoded by to_bytes: listed under C06/C11)',
     'expected prefixes / hrps per network are read from bitcoinlib/data/networks.json (the documented network definitions)',
 ]
-BOUNDS = {'quick': 'all 20/32-byte payloads; P2PKH, P2SH, P2WPKH, P2WSH, P2TR and witness versions 2..16 (32-byte programs); every network of networks.json as transaction network; addresses of every network (cross-network refusal); routes: address string, Address object, HD-key-like object, raw script',
+BOUNDS = {'quick': 'all 20/32-byte payloads; P2PKH, P2SH, P2WPKH, P2WSH, P2TR and witness versions 2..16 (32-byte programs); every network of networks.json as transaction network; addresses of every network (cross-network refusal); routes: address string (alone or with consistent encoding / public_hash / script_type arguments), Address object, HD-key-like object (also after an earlier address() call for another view of the key), Transaction.add_output on segwit- and legacy-typed transactions, raw script',
           'thorough': 'same'}
 OUTSIDE = 'keys -> hash (C04); non-standard scripts; the codecs themselves (C11); payloads consisting only of ASCII hex digits'
 
@@ -98,7 +98,7 @@ def setup(ex):
         return OpaqueAddr(encoding, prefix, witver, pubkeyhash)
     shims.install(K, change_base=change_base, double_sha256=_H['d'], addr_bech32_to_pubkeyhash=bech_dec,
                   addr_bech32_checksum=lambda a: 1, pubkeyhash_to_addr=enc, _logger=NullLog())
-    shims.install(T, _logger=NullLog())
+    shims.install(T, _logger=NullLog(), float=shims.float_of_int_shim)
 
 
 TEMPLATES = {
@@ -196,11 +196,24 @@ def h_forward(ex, net, route):
         hk = K.HDKey(bytes(range(1, 33)), witness_type=wt, network=net)
         h160 = hashlib.new('ripemd160', hashlib.sha256(hk.public_byte).digest()).digest()
         exp = h160 if kind != 'p2sh' else hashlib.new('ripemd160', hashlib.sha256(b'\x00\x14' + h160).digest()).digest()
+        if ex.choose('earlier_call_on_key', ['none', 'address(<other encoding / script type>)']) != 'none':
+            other_kind = {'p2pkh': 'p2wpkh', 'p2sh': 'p2wpkh', 'p2wpkh': 'p2pkh'}[kind]
+            hk.address(encoding=KINDS[other_kind][0], script_type=other_kind)          # an earlier, other view of the key
         o = T.Output(value, address=hk, network=net)
         ex.check(_eq(o.lock_script, template(kind, exp, 0)), 'address-to-standard-locking-script')
+        ex.check(o.address == addr_for(nets, net, kind, exp, 0, True), 'output-reports-the-address-it-pays-to')
         return
     if route == 'string':
-        o = T.Output(value, address=a, network=net)
+        # the caller may also pass what it already knows about the address (consistent with it)
+        extra = ex.choose('also_given', ['nothing', 'encoding', 'public_hash', 'public_hash+encoding', 'public_hash+script_type'])
+        kw = {}
+        if 'encoding' in extra:
+            kw['encoding'] = KINDS[kind][0]
+        if 'public_hash' in extra:
+            kw['public_hash'] = payload if not ex.concrete else bytes(payload)
+        if 'script_type' in extra:
+            kw['script_type'] = kind
+        o = T.Output(value, address=a, network=net, **kw)
     elif route == 'address_obj':
         ao = K.Address.__new__(K.Address)
         ao.address, ao.encoding, ao.network = a, KINDS[kind][0], K.Network(net)
@@ -213,11 +226,24 @@ def h_forward(ex, net, route):
         ao = K.Address.__new__(K.Address)
         ao.address, ao.encoding, ao.network = a, KINDS[kind][0], K.Network(net)
         ao.script_type, ao.hash_bytes, ao.witness_type, ao.witver = kind, payload, {'p2pkh': 'legacy', 'p2sh': 'p2sh-segwit', 'p2wpkh': 'segwit'}[kind], 0
-        hk._address_obj = ao
-        hk.address = lambda *x, **y: a
+        # the key object answers address() / address_obj like keys.HDKey does: address_obj is whatever the LAST address()
+        # call built.  An earlier call may have asked for another view of the key (call histories)
+        other_kind = {'p2pkh': 'p2wpkh', 'p2sh': 'p2wpkh', 'p2wpkh': 'p2pkh'}[kind]
+        stale = K.Address.__new__(K.Address)
+        keyhash = payload if kind != 'p2sh' else ex.bytes('key_hash160', 20)          # (p2pkh and p2wpkh views both carry the key's hash160)
+        stale.address = addr_for(nets, net, other_kind, keyhash, 0, ex.concrete)
+        stale.encoding, stale.network, stale.script_type, stale.hash_bytes = KINDS[other_kind][0], K.Network(net), other_kind, keyhash
+        stale.witness_type, stale.witver = {'p2pkh': 'legacy', 'p2wpkh': 'segwit'}[other_kind], 0
+        earlier = ex.choose('earlier_call_on_key', ['none', 'address(<other encoding / script type>)'])
+        hk._address_obj = stale if earlier != 'none' else None
+
+        def _address(*x, **y):
+            hk._address_obj = ao          # (Key.address() stores the object it builds)
+            return a
+        hk.address = _address
         hk.public_byte = b'\x02' + ex.bytes('pubkey_x', 32)
         # for P2PKH / P2WPKH the address payload IS the key's hash160; only the P2SH-segwit address commits to another hash
-        hk._hash160 = payload if kind != 'p2sh' else ex.bytes('key_hash160', 20)
+        hk._hash160 = keyhash
         hk.compressed = True
         hk.witness_type = ao.witness_type
         hk.multisig = False
@@ -225,6 +251,8 @@ def h_forward(ex, net, route):
     want = template(kind, payload, witver)
     ex.check(_eq(o.lock_script, want), 'address-to-standard-locking-script')
     ex.check(o.value == value, 'value-kept')
+    if route == 'hdkey':
+        ex.check(o.address is a, 'output-reports-the-address-it-pays-to')
 
 
 def h_backward(ex, net):
@@ -239,7 +267,13 @@ def h_backward(ex, net):
     payload = sym_payload(ex, 32 if kind == 'witness_vN' else KINDS[kind][1])
     script = template(kind, payload, witver)
     value = ex.int('value', 0, 21 * 10 ** 14)
-    o = T.Output(value, lock_script=script, network=net)
+    via = ex.choose('built_through', ['Output()', 'Transaction(witness_type=segwit).add_output', 'Transaction(witness_type=legacy).add_output'])
+    if via == 'Output()':
+        o = T.Output(value, lock_script=script, network=net)
+    else:
+        t = T.Transaction(network=net, witness_type='segwit' if 'segwit' in via else 'legacy')
+        t.add_output(value, lock_script=script if not ex.concrete else bytes(script))
+        o = t.outputs[0]
     a = o.address
     d = nets[net]
     ex.check(_eq(o.lock_script, script), 'script-kept')
